@@ -353,17 +353,58 @@ def _atom_of(e, defs, idx):
 
 def _collect_bil(m: Func, idx, weighted=True):
     """Sum of B-terms appended to tmp_values in the innermost loop (weighted branch) and the outer factor."""
+    # the method body specialised to one value of `self.weight_matrices` (every `if` on it is replaced by the branch taken; loops
+    # are flattened: only the definitions and the appends of the innermost body matter here)
+    def wtest(t):
+        if isinstance(t, ast.UnaryOp) and isinstance(t.op, ast.Not):
+            v = wtest(t.operand)
+            return None if v is None else not v
+        if unparse(t) in ("self.weight_matrices", "self._weight_matrices"):
+            return True
+        if isinstance(t, ast.Compare) and len(t.ops) == 1 and unparse(t.left) in ("self.weight_matrices", "self._weight_matrices") \
+                and const(t.comparators[0]) is None and isinstance(t.ops[0], (ast.IsNot, ast.NotEq)):
+            return True
+        if isinstance(t, ast.Compare) and len(t.ops) == 1 and unparse(t.left) in ("self.weight_matrices", "self._weight_matrices") \
+                and const(t.comparators[0]) is None and isinstance(t.ops[0], (ast.Is, ast.Eq)):
+            return False
+        return None
+
+    def flat(stmts):
+        out = []
+        for s_ in stmts:
+            if isinstance(s_, ast.If):
+                w = wtest(s_.test)
+                if w is None:
+                    out.append(s_)
+                else:
+                    out += flat(s_.body if w == weighted else s_.orelse)
+            elif isinstance(s_, (ast.For, ast.While)):
+                out += flat(s_.body)
+            else:
+                out.append(s_)
+        return out
+    seq = flat(body_wo_doc(m.node))
     defs = {}
-    for n in own_nodes(m.node):
-        if isinstance(n, ast.Assign) and len(n.targets) == 1 and isinstance(n.targets[0], ast.Name):
-            defs.setdefault(n.targets[0].id, n.value)
+    twice = set()
+    for s_ in seq:
+        if isinstance(s_, ast.Assign) and len(s_.targets) == 1 and isinstance(s_.targets[0], ast.Name):
+            if s_.targets[0].id in defs and unparse(defs[s_.targets[0].id]) != unparse(s_.value):
+                twice.add(s_.targets[0].id)
+            defs[s_.targets[0].id] = s_.value
+    for k in twice:
+        if k not in ("tmp_values", "val", "value"):
+            defs.pop(k, None)
     total = None
-    branch_if = [n for n in own_nodes(m.node) if isinstance(n, ast.If) and unparse(n.test) == "self.weight_matrices"]
-    for bi in branch_if:
-        body = bi.body if weighted else bi.orelse
-        for s in body:
-            if isinstance(s, ast.Assign) and unparse(s.targets[0]) == "tmp_value":
-                total = _bil_expr(s.value, defs, idx)
+    apps = [n for s_ in seq for n in ast.walk(s_) if isinstance(n, ast.Call) and isinstance(n.func, ast.Attribute) and n.func.attr == "append"
+            and unparse(n.func.value) == "tmp_values" and len(n.args) == 1]
+    if any(isinstance(s_, ast.If) for s_ in seq if any(a is x for a in apps for x in ast.walk(s_))):
+        apps = []       # an append under a condition that is not the weight test
+    for a in apps:
+        b_ = _bil_expr(a.args[0], defs, idx)
+        if b_ is None:
+            total = None
+            break
+        total = b_ if total is None else total + b_
     outer = None
     for r in returns(m):
         e = r.value
@@ -380,6 +421,8 @@ def _bil_expr(e, defs, idx):
     if isinstance(e, ast.BinOp) and isinstance(e.op, ast.Add):
         l, r = _bil_expr(e.left, defs, idx), _bil_expr(e.right, defs, idx)
         return None if l is None or r is None else l + r
+    if isinstance(e, ast.Name) and e.id in defs:
+        return _bil_expr(defs[e.id], {k: v for k, v in defs.items() if k != e.id}, idx)
     fn = (dotted(e.func) or "") if isinstance(e, ast.Call) else ""
     if fn in ("multiply_veca_vecb_matc", "multiply_veca_vecb") and len(e.args) == (3 if fn.endswith("matc") else 2) and not e.keywords:
         a, b = _atom_of(e.args[0], defs, idx), _atom_of(e.args[1], defs, idx)
